@@ -1,5 +1,6 @@
 //! meldasim — deterministic simulation with fault injection for libmelda (see /verif/DESIGN.md).
 mod api;
+mod backends;
 mod disk;
 mod docgen;
 mod driver;
